@@ -193,7 +193,7 @@ func orchMain() int {
 				fmt.Printf("dsim: worker %d died (exit %d) after reporting %d violation(s); its later runs are lost\n", i, r.exit, partial)
 				continue
 			}
-			v, herr := triageDeadWorker(p, tier, r, scratch, i)
+			v, herr := triageDeadWorker(p, tier, r, scratch, i, &HistSpec{Base: seed, WIdx: i, WN: nw})
 			if v != nil {
 				viols = append(viols, *v)
 			}
@@ -264,8 +264,11 @@ func orchMain() int {
 		if seen[v.Sig] {
 			continue
 		}
-		rf := ReplayFile{Desc: v.Desc, Thorough: tier == "thorough", Sig: v.Sig, Detail: v.Detail, Trace: v.Trace,
+		rf := ReplayFile{Desc: v.Desc, Thorough: tier == "thorough", Sig: v.Sig, Detail: v.Detail, Trace: v.Trace, History: v.History,
 			Note: fmt.Sprintf("minimised from %d to %d tape values with %d candidates; replay: ./check %s --replay <this file>", v.OrigLen, v.MinLen, v.ShrinkN, prop)}
+		if v.History != nil {
+			rf.Note = fmt.Sprintf("not minimised: the run fails only after the earlier runs of worker %d of %d (base seed %d), which the replay re-executes; replay: ./check %s --replay <this file>", v.History.WIdx, v.History.WN, v.History.Base, prop)
+		}
 		name := fmt.Sprintf("%s-%d-%s.json", prop, v.Desc.Seed, sigSlug(v.Sig))
 		path := filepath.Join(replayDir, name)
 		js, _ := json.MarshalIndent(rf, "", " ")
@@ -448,6 +451,9 @@ func orchReplay(p *Property, path string) int {
 	defer os.RemoveAll(scratch)
 	if strings.Contains(rf.Sig, "/crash/") || strings.Contains(rf.Sig, "/hang/") {
 		env := []string{"VERIF_ROLE=replay", "GOMAXPROCS=1", "GODEBUG=asyncpreemptoff=1", "VERIF_REPLAY=" + path, "VERIF_HANG_S=15"}
+		if rf.History != nil {
+			env[len(env)-1] = "VERIF_HANG_S=120"
+		}
 		code, se := runChild(env, 1<<14)
 		if code != 0 && code != 4 {
 			fmt.Printf("dsim: replay died again (exit %d): %s\n", code, short(firstFatal(se), 300))
@@ -487,7 +493,7 @@ func firstFatal(se string) string {
 // that was in progress, alone, in a fresh process. If that dies again the seed
 // is reported as a violation (the library took the process down or span
 // forever); otherwise it is harness trouble.
-func triageDeadWorker(p *Property, tier string, r childResult, scratch string, widx int) (*ViolationRec, string) {
+func triageDeadWorker(p *Property, tier string, r childResult, scratch string, widx int, hist *HistSpec) (*ViolationRec, string) {
 	f := strings.Fields(r.prog)
 	if len(f) < 4 || r.exit == 4 {
 		return nil, fmt.Sprintf("worker %d exited %d before/without a run in progress: %s", widx, r.exit, short(r.stderr, 1500))
@@ -507,6 +513,19 @@ func triageDeadWorker(p *Property, tier string, r childResult, scratch string, w
 	os.WriteFile(path, js, 0644)
 	env := []string{"VERIF_ROLE=replay", "GOMAXPROCS=1", "GODEBUG=asyncpreemptoff=1", "VERIF_REPLAY=" + path, "VERIF_HANG_S=15"}
 	code, se := runChild(env, 1<<15)
+	if (code == 0 || code == 4) && kind == "crash" && hist != nil {
+		// not alone: does it die again after the runs this worker had executed before it?
+		// (state the library keeps process-wide, left behind by an earlier connection)
+		rf.History = hist
+		rf.Sig = fmt.Sprintf("%s/crash/after-earlier-runs/%s", p.ID, d.Scen)
+		js, _ := json.Marshal(rf)
+		os.WriteFile(path, js, 0644)
+		code2, se2 := runChild(append(env, "VERIF_HANG_S=120"), 1<<15)
+		if code2 != 0 && code2 != 4 && code2 != 3 && strings.Contains(se2, "go-diameter") {
+			return &ViolationRec{Desc: d, Sig: rf.Sig, Detail: "process crash, only after the runs the same process executed earlier: " + short(firstFatal(se2), 400), RunIndex: 0,
+				Trace: []string{"the run takes the worker process down when it follows the worker's earlier runs; see detail", short(se2, 1500)}, History: hist}, ""
+		}
+	}
 	if code == 0 || code == 4 {
 		return nil, fmt.Sprintf("worker %d died (exit %d) in run %v but the run alone exits %d: %s", widx, r.exit, r.prog, code, short(r.stderr, 1500))
 	}
